@@ -50,16 +50,19 @@ class WalkOracle:
         self.is_redirect = [z3.And(z3.Not(has_slot[i]), w.mods[i]['red'][0]) for i in range(N)]
         self.entry_module = [z3.And(self.is_mod[i], z3.Not(self.replaced[i])) for i in range(N)]
         def follow(d): return z3.And(d['p'], z3.Or(z3.Not(d['dyn']), o.fd))
-        def edge(i, j):
+        def early(i, j):     # followed as soon as i is taken from the queue (before it is yielded)
+            return z3.And(self.inc_types, self.td_ok[i], w.mods[i]['td']['res'][1] == j)
+        def late(i, j):      # followed when the walk is advanced past the yielded entry i
             es = [z3.And(self.is_redirect[i], z3.Not(self.skipset[i]), w.mods[i]['red'][1] == j)]
-            es.append(z3.And(self.inc_types, self.td_ok[i], w.mods[i]['td']['res'][1] == j))
             for sel, deps in self.depmap(i):
                 for d in deps:
                     f = z3.And(self.entry_module[i], w.has_deps(i), z3.Not(self.skipset[i]), sel, follow(d))
                     es.append(z3.And(f, self.res_ok(d['code'], j)))
                     es.append(z3.And(f, self.inc_types, self.res_ok(d['type'], j)))
             return z3.Or(es)
-        self.E = [[edge(i, j) for j in range(N)] for i in range(N)]
+        self.E_early = [[early(i, j) for j in range(N)] for i in range(N)]
+        self.E_late = [[late(i, j) for j in range(N)] for i in range(N)]
+        self.E = [[z3.Or(self.E_early[i][j], self.E_late[i][j]) for j in range(N)] for i in range(N)]
         seed = list(self.rootsel)
         if self.use_imports:
             for j in range(N):
@@ -69,6 +72,7 @@ class WalkOracle:
                         extra.append(z3.And(imp['p'], d['p'], self.res_ok(d['code'], j)))
                         extra.append(z3.And(imp['p'], d['p'], self.inc_types, self.res_ok(d['type'], j)))
                 if extra: seed[j] = z3.Or([seed[j]] + extra)
+        self.seed = list(seed)
         reach = seed
         for _ in range(N - 1):
             reach = [z3.Or(reach[j], Or(z3.And(reach[i], self.E[i][j]) for i in range(N) if i != j)) for j in range(N)]
